@@ -11,5 +11,5 @@ CONSTANTS
   ScenCfg <- MC_Scen_seal
   ScenTree <- MC_Tree_plain
 VIEW View
-INVARIANTS TreeOK HandlesOK Sealed SealRulesOK Report
+INVARIANTS TreeOK HandlesOK SwitchesOK Sealed SealRulesOK Report
 CHECK_DEADLOCK FALSE
